@@ -186,6 +186,13 @@ fn class_ws(rng: &mut Rng) -> (Vec<(String, String)>, BTreeMap<String, usize>, V
             root_decls.push((name.to_string(), k));
         }
     }
+    // now and then one of the files ends with a switched-off region that holds classes, some of them
+    // behind a conditional of their own (the include-guard idiom inside disabled text): none of them exists
+    match rng.below(6) {
+        0 => root.push_str("#ifdef NEVER_DEFINED\n#ifndef GUARD_H\n#define GUARD_H\nclass Hidden1;\n#endif\nclass Hidden2<int a>;\n#endif\n"),
+        1 => inc.push_str("#ifndef ALWAYS\n#define ALWAYS\n#else\n#ifndef INNER\nclass Hidden3<int a, int b>;\n#else\nclass Hidden4;\n#endif\nclass Hidden5;\n#endif\n"),
+        _ => {}
+    }
     // the included file is indexed first (its include statement is the first line of the root);
     // for a redeclared class the last declaration in indexing order wins
     for (n, k) in inc_decls.into_iter().chain(root_decls) {
